@@ -38,6 +38,12 @@ structure Quirks where
   formatOutcomeIntPadRight : Bool := false
   /-- `DeutschJozsa.decode_output` compares the decoded *value* with `0` -/
   djDecodeEqZero : Bool := false
+  /-- `convert_to_dimacs` takes `.args` of a CNF that is a literal or `False` -/
+  dimacsAtomCnf : Bool := false
+  /-- `convert_to_bool_expression` conjoins the right-hand side of every definition, intermediates included -/
+  bexpConjoinsIntermediates : Bool := false
+  /-- py2bexp calls `to_cnf/to_dnf(simplify=True)` without `force`: ValueError above 8 variables -/
+  nfVarLimit : Bool := false
   deriving Repr, DecidableEq, Inhabited
 
 def Quirks.none : Quirks := {}
@@ -58,5 +64,8 @@ def Quirks.ofList (l : List String) : Quirks :=
     retFlatNames := l.contains "retFlatNames"
     formatOutcomeIntPadRight := l.contains "formatOutcomeIntPadRight"
     djDecodeEqZero := l.contains "djDecodeEqZero" }
+    dimacsAtomCnf := l.contains "dimacsAtomCnf"
+    bexpConjoinsIntermediates := l.contains "bexpConjoinsIntermediates"
+    nfVarLimit := l.contains "nfVarLimit" }
 
 end QV
